@@ -1,5 +1,5 @@
 (* Props/C03.v — Every plan is internally consistent with the files it describes.  Statements only. *)
-From RN Require Import Model.ApplyModel Model.SimplePlan Proofs.SimplePlanP.   (* first: Model/Enhanced.v's e_start etc. must win below *)
+From RN Require Import Model.ApplyModel Model.SimplePlan Proofs.SimplePlanP Model.SimplePlanRx Proofs.SimplePlanRxP.   (* first: Model/Enhanced.v's e_start etc. must win below *)
 From RN Require Import Base.Bytes Model.StyleDef Model.Edits Model.Matcher Model.Hunks Model.Compound Model.Enhanced.
 From RN Require Import Proofs.EditsP Proofs.HunksP Proofs.EnhancedP1 Proofs.EnhancedP2.
 
@@ -155,3 +155,40 @@ Print Assumptions C03_simple_plan_consistent.
 Print Assumptions C03_simple_plan_stats.
 Print Assumptions C03_simple_plan_applies.
 Print Assumptions C03_simple_plan_lossy_refuted.
+
+(* ---- REGEX MODE of the same planner (Model/SimplePlanRx.v; the default of `renamify replace`).  The regex crate is an oracle,
+   rx_caps: what captures_iter yields on one line; its contract rx_caps_ok is what the crate documents (matches within the line,
+   increasing and non-overlapping, on character boundaries, groups likewise; EMPTY matches allowed).  The replacement text is the
+   code's own loop of `$i` substitutions (expand), which is not Captures::expand - restated, not assumed.  For every file: ---- *)
+Theorem C03_regex_plan_hunks : forall excl rx_caps p repl, rx_caps_ok rx_caps -> forall bat c rh,
+  In rh (fst (process_file_content_regex excl rx_caps p repl bat c)) ->
+  rx_hunk_spec excl (rx_find_of_caps rx_caps repl) p c rh /\
+  (exists gs,
+     In (fh_col (rx_fh rh), (fh_col (rx_fh rh) + length (fh_content (rx_fh rh)))%nat, gs)
+        (rx_caps (strip_eol (line_at c (fh_start (rx_fh rh))))) /\
+     fh_replace (rx_fh rh) = SimplePlanRx.expand (strip_eol (line_at c (fh_start (rx_fh rh)))) gs repl).
+Proof. exact regex_plan_hunks. Qed.
+
+Theorem C03_regex_plan_sorted : forall excl rx_caps p repl, rx_caps_ok rx_caps -> forall bat c,
+  sorted_disjoint 0 (map rx_fh (fst (process_file_content_regex excl rx_caps p repl bat c))) = true.
+Proof. exact regex_plan_sorted. Qed.
+
+(* applying the plan yields the reference substitution, empty matches included *)
+Theorem C03_regex_plan_applies : forall excl rx_caps p repl, rx_caps_ok rx_caps -> forall bat c,
+  utf8_ok repl = true -> head_ok c = true ->
+  wf_edits c (map edit_of_hunk (map rx_fh (fst (process_file_content_regex excl rx_caps p repl bat c)))) = true /\
+  apply_edits_rev c (map edit_of_hunk (map rx_fh (fst (process_file_content_regex excl rx_caps p repl bat c))))
+    = Ok (spec_splice c (map edit_of_hunk (map rx_fh (fst (process_file_content_regex excl rx_caps p repl bat c))))).
+Proof. exact regex_plan_applies. Qed.
+
+(* file_consistent (which demands non-empty hunks) - for a regex that never matches the empty string; `x*` yields empty hunks,
+   which the property's clauses allow (empty text is at its offsets) and the model's predicate does not: RxWitness *)
+Theorem C03_regex_plan_consistent : forall excl rx_caps p repl, rx_caps_ok rx_caps -> forall bat c,
+  rx_caps_nonempty rx_caps ->
+  file_consistent false c (map rx_fh (fst (process_file_content_regex excl rx_caps p repl bat c))) = true.
+Proof. exact regex_plan_consistent. Qed.
+
+Print Assumptions C03_regex_plan_hunks.
+Print Assumptions C03_regex_plan_sorted.
+Print Assumptions C03_regex_plan_applies.
+Print Assumptions C03_regex_plan_consistent.
